@@ -318,9 +318,14 @@ def run(tier, seed):
     cfg = os.path.join(d, "trace.cfg")
     with open(cfg, "w") as f:
         f.write("INIT Init\nNEXT Next\nCHECK_DEADLOCK FALSE\n")
-    r = run_tlc(os.path.join(d, "TimerTrace.tla"), cfg, workers=1, extra_env={"TRACE_FILE": tf}, timeout=3000)
-    ev.add_tlc("TimerTrace.tla", r, "one state per recorded log; monitor folded over every event")
-    verdicts = {v["tid"]: v for v in r.prints if isinstance(v, dict) and "tid" in v}
+    verdicts = {}
+    CH = 20000                              # JsonDeserialize of one huge file exhausts TLC's heap: validate in chunks
+    for lo in range(0, len(traces), CH):
+        with open(tf, "w") as f:
+            json.dump(traces[lo:lo + CH], f)
+        r = run_tlc(os.path.join(d, "TimerTrace.tla"), cfg, workers=1, extra_env={"TRACE_FILE": tf}, timeout=3000)
+        ev.add_tlc(f"TimerTrace.tla (logs {lo + 1}..{min(lo + CH, len(traces))})", r, "one state per recorded log; monitor folded over every event")
+        verdicts.update({v["tid"]: v for v in r.prints if isinstance(v, dict) and "tid" in v})
     if len(verdicts) != len(traces):
         raise MachineryError(f"trace validation returned {len(verdicts)} verdicts for {len(traces)} traces")
     ev.cov["traces_validated_against_impl"] = len(traces)
